@@ -37,6 +37,33 @@ CM_H = 'src/tbb/concurrent_monitor.h'
 CQ_H = 'include/oneapi/tbb/concurrent_queue.h'
 
 MUTANTS = [
+    dict(name='c07-seed-ring-one-slot-short', prop='C07', clause='D5', edits=[(PP_CPP, "                grow( token-low_token+1 );", "                grow( token-low_token );")]),
+    dict(name='c07-ring-store-unguarded', prop='C07', clause='D5', edits=[(PP_CPP, "            if( token-low_token>=array_size )\n                grow( token-low_token+1 );", "            if( token-low_token>array_size )\n                grow( token-low_token+1 );")]),
+    dict(name='c07-grow-does-not-reach-minimum', prop='C07', clause='D5', edits=[(PP_CPP, "    while( new_size<minimum_size )\n        new_size*=2;", "    if( new_size<minimum_size )\n        new_size*=2;")]),
+    dict(name='c04-seed-snapshot-of-own-list', prop='C04', clause='D4', edits=[(TGC_CPP,
+        "uintptr_t local_count_snapshot = ctx.my_parent->my_context_list->epoch.load(std::memory_order_acquire);",
+        "uintptr_t local_count_snapshot = td->my_context_list->epoch.load(std::memory_order_acquire);")]),
+    dict(name='c06-seed-det-reduce-overload-uses-start-reduce', prop='C06', clause='D6', edits=[(PR_H, """    start_deterministic_reduce<Range, lambda_reduce_body<Range, Value, RealBody, Reduction>, const simple_partitioner>
+        ::run(range, body, partitioner, context);""", """    start_reduce<Range, lambda_reduce_body<Range, Value, RealBody, Reduction>, const simple_partitioner>
+        ::run(range, body, partitioner, context);""")]),
+    dict(name='c05-index-overload-drops-context', prop='C05', clause='D5', edits=[(PF_H, "        parallel_for(range, body, partitioner, context);", "        parallel_for(range, body, partitioner);")]),
+    dict(name='c14-input-node-get-ignores-reservation', prop='C14', clause='D6', edits=[(FG_H, """        spin_mutex::scoped_lock lock(my_mutex);
+        if ( my_reserved )
+            return false;
+
+        if ( my_has_cached_item ) {
+            v = my_cached_item;
+            my_has_cached_item = false;""", """        spin_mutex::scoped_lock lock(my_mutex);
+
+        if ( my_has_cached_item ) {
+            v = my_cached_item;
+            my_has_cached_item = false;""")]),
+    dict(name='c01-unsigned-arbitration', prop='C01', clause='D1', edits=[(AS_CPP,
+        "if ( (std::intptr_t)( head.load(std::memory_order_acquire) ) > (std::intptr_t)T ) {",
+        "if ( head.load(std::memory_order_acquire) > T ) {")]),
+    dict(name='c01-unsigned-steal-arbitration', prop='C01', clause='D1', edits=[(AS_CPP,
+        "if ((std::intptr_t)H > (std::intptr_t)(tail.load(std::memory_order_acquire))) {",
+        "if (H > tail.load(std::memory_order_acquire)) {")]),
     dict(name='c12-seed-double-destroy-loser', prop='C12', clause='D4', edits=[(CUB_H, """        auto insert_result = internal_insert(insert_node->value(), init_node);
 
         if (!insert_result.inserted) {
@@ -776,6 +803,10 @@ MUTANTS = [
 ]
 
 BENIGN = [
+    dict(name='c07-b-grow-more', prop='C07', edits=[(PP_CPP, "                grow( token-low_token+1 );", "                grow( token-low_token+2 );")]),
+    dict(name='c01-b-static-cast-arbitration', prop='C01', edits=[(AS_CPP,
+        "if ( (std::intptr_t)( head.load(std::memory_order_acquire) ) > (std::intptr_t)T ) {",
+        "if ( static_cast<std::ptrdiff_t>( head.load(std::memory_order_acquire) ) > static_cast<std::ptrdiff_t>(T) ) {")]),
     dict(name='c02-b-wakeup-forward-inverted-test', prop='C02', edits=[(AR_CPP, """            if (index2 == arena::out_of_arena) {
                 // notify a waiting thread even if this thread did not enter arena,
                 // in case it was woken by a leaving thread but did not need to enter
